@@ -244,6 +244,16 @@ func (ex *Exec) binop(st *State, op token.Token, x, y *Val, pos token.Pos) *Val 
 			if c, ok := isIntLit(a); ok && c > 0 && c&(c-1) == 0 {
 				return &Val{T: x.T, Term: mul(mk("mod", SInt, mk("div", SInt, b, intLit(c)), intLit(2)), intLit(c))}
 			}
+		case token.OR, token.XOR:
+			// constant folding only (flag words such as os.O_CREATE|os.O_APPEND)
+			if ca, ok := isIntLit(a); ok && ca >= 0 {
+				if cb, ok := isIntLit(b); ok && cb >= 0 {
+					if op == token.OR {
+						return &Val{T: x.T, Term: intLit(ca | cb)}
+					}
+					return &Val{T: x.T, Term: intLit(ca ^ cb)}
+				}
+			}
 		case token.SHL:
 			if c, ok := isIntLit(b); ok && c >= 0 && c < 63 {
 				return &Val{T: x.T, Term: mul(a, pow2(c))}
